@@ -148,11 +148,20 @@ def bounded(ctx, b):
                 cases.append((mode, term, [[(1, ROWS_TEXT[:l1]), (5, ROWS_TEXT[:l2]), (9, ROWS_TEXT[:l3])]]))
             for l1, l2 in itertools.product(lens, repeat=2):
                 cases.append((mode, term, [[(14, ROWS_TEXT[:l1])], [(15, ROWS_TEXT[:l2])]]))
+    # leading blanks are columns too: rows that exceed 32 only when their indentation is counted
+    for mode in ("pop", "roll", "paint"):
+        for lead, total in itertools.product([1, 2, 5], [32, 33, 34]):
+            ind = " " * lead + ROWS_TEXT[:total - lead]
+            cases.append((mode, True, [[(14, ind), (15, ROWS_TEXT[:10])]]))
+            cases.append((mode, True, [[(14, ROWS_TEXT[:10]), (15, ind)]]))
+            cases.append((mode, False, [[(3, ind)], [(9, ROWS_TEXT[:5])]]))
     for _ in range(100 if not ctx.thorough else 2000):
         mode = rng.choice(["pop", "roll", "paint"])
         sets = [[(r, ROWS_TEXT[:rng.choice(lens + [10, 20])]) for r in sorted(rng.sample([1, 3, 5, 7, 9, 11, 13, 15], rng.choice([1, 2, 3])))]
                 for _ in range(rng.choice([1, 2, 3]))]
         cases.append((mode, rng.choice([True, False]), sets))
+    # one reader object for all streams (the outcome must depend on the stream only, also after a read that raised)
+    shared = SCCReader()
     for mode, term, sets in cases:
         texts = [t for rows in sets for _, t in rows if t]
         longs = [t for t in texts if len(t) > 32]
@@ -160,7 +169,7 @@ def bounded(ctx, b):
         def one():
             doc = stream(mode, sets, term)
             try:
-                cs = SCCReader().read(doc)
+                cs = shared.read(doc)
             except CaptionLineLengthError as e:
                 msg = str(e)
                 named = all(f"{t} - Length {len(t)}" in msg for t in longs)
